@@ -1699,7 +1699,7 @@ fn small_scope() -> Vec<String> {
         }
         p(vec![el("x-foo", vec![Attr::Plain("data-x".into(), s.clone(), Ty::string())], vec![t()]), t()]);
         // every string type in a text position
-        p(vec![el("div", vec![], TEXT_TYS.iter().map(|ty| tt(ty)).collect())]);
+        p(vec![el("div", vec![], TEXT_TYS.iter().skip(1).map(|ty| tt(ty)).collect())]);
         for ty_ in &TEXT_TYS[1..] {
             p(vec![el("span", vec![], vec![tt(ty_)])]);
         }
@@ -1834,7 +1834,7 @@ fn small_scope() -> Vec<String> {
                     Attr::Plain("title".into(), s.clone(), ty('=', "OcoB")),
                     Attr::Plain("lang".into(), s.clone(), ty('=', "TpL")),
                 ],
-                TEXT_TYS.iter().map(|ty| tt(ty)).collect(),
+                TEXT_TYS.iter().skip(1).map(|ty| tt(ty)).collect(),
             )],
             vec![el("div", vec![], vec![Node::Suspense { transition: false, kids: vec![sus(1, vec![el("textarea", vec![], vec![t()])]), el("textarea", vec![], vec![t()])], fb: vec![el("textarea", vec![], vec![t()])] }, Node::Show { cond: true, kids: vec![el("textarea", vec![], vec![t()])], fb: vec![] }])],
         ];
